@@ -99,10 +99,17 @@ func genC19(x *Ctx) *c19Scen {
 		sc.Specs = append(sc.Specs, r)
 	})
 	nSpecs := len(sc.Specs)
+	if tp.Chance(50) {
+		maxTotal = 48 // a long history on one container: counters, generations, caches that fill up
+	}
 	nClients := tp.Range(2, 4)
 	sc.Clients = make([][]int, nClients)
 	sc.Gone = make([][]int, nClients)
-	tp.Repeat(3, maxTotal, 750, func(int) {
+	moreReq := 750
+	if maxTotal == 48 {
+		moreReq = 960
+	}
+	tp.Repeat(3, maxTotal, moreReq, func(int) {
 		sp := tp.G(nSpecs)
 		sc.Order = append(sc.Order, sp)
 		c := tp.G(nClients)
